@@ -339,6 +339,61 @@ pub fn run(cfg: &Cfg, rep: &mut Report) {
             }
         }
     }
+    // ---- step 5: the ASCII entry points on every ASCII pair differing only in bit 5, and \b/\w there
+    if cfg.shard == 1 % cfg.nshards {
+        for (flags, unicode, _m) in modes() {
+            for a in 0x21u32..0x7F {
+                for b in [a, a ^ 0x20] {
+                    if !(0x21..0x7F).contains(&b) {
+                        continue;
+                    }
+                    let (ca, cb) = (char::from_u32(a).unwrap(), char::from_u32(b).unwrap());
+                    let want = cd.equivalent(a, b, unicode);
+                    let mut la = Vec::new();
+                    lit(a, &mut la);
+                    let mk = |pre: &str, mid: &[u32], post: &str| -> Vec<u32> {
+                        let mut v: Vec<u32> = pre.chars().map(|c| c as u32).collect();
+                        v.extend_from_slice(mid);
+                        v.extend(post.chars().map(|c| c as u32));
+                        v
+                    };
+                    for (name, pat, hay) in [("ascii_backreference", mk("^(", &la, ")\\1$"), format!("{}{}", ca, cb)), ("ascii_class", mk("^[", &la, "]$"), cb.to_string()), ("ascii_literal_pair", mk("^", &la, "$"), cb.to_string()), ("ascii_backreference_lookbehind", mk("(?<=^(", &la, ").)(?<=\\1)$"), format!("{}{}", ca, cb))] {
+                        if let Guarded::Ok(Ok(re)) = engine::compile(&pat, flags, false) {
+                            for api in [Api::Ascii, Api::PikeAscii, Api::Utf8] {
+                                let got = matches!(engine::find_first(&re, &hay, 0, api, 1_000_000), Guarded::Ok(Some(_)));
+                                rep.inc(&format!("construct.{}", name));
+                                rep.eval(fnv64(format!("{}|{}|{}|{:?}|{}", name, a, b, api, flags.to_string()).as_bytes()), true);
+                                if got != want {
+                                    rep.violation(violation(
+                                        "C10",
+                                        &format!("{:?} entry point: construct '{}' disagrees with the canonical equivalence of {:?} and {:?}", api, name, ca, cb),
+                                        J::obj().set("construct", name).set("pattern", engine::cps_to_string_lossy(&pat)).set("pattern_cps", J::Arr(pat.iter().map(|&c| J::from(c)).collect())).set("flags", flags.to_string()).set("haystack", hay.as_str()).set("haystack_hex", hex(hay.as_bytes())).set("start", 0).set("api", format!("{:?}", api)).set("check", "c10"),
+                                        format!("matched = {}", got),
+                                        format!("matched = {}", want),
+                                    ));
+                                }
+                            }
+                        }
+                    }
+                }
+                // word character classification through the ASCII entry points
+                let s = char::from_u32(a).unwrap().to_string();
+                let is_word = crate::uniref::es_word_basic().contains(a);
+                for (pat, want) in [("^\\w$", is_word), ("^\\W$", !is_word), ("^\\b.\\b$", is_word), ("^\\B.\\B$", !is_word)] {
+                    if let Guarded::Ok(Ok(re)) = engine::compile(&engine::to_cps(pat), flags, false) {
+                        for api in [Api::Ascii, Api::PikeAscii] {
+                            let got = matches!(engine::find_first(&re, &s, 0, api, 1_000_000), Guarded::Ok(Some(_)));
+                            rep.inc("construct.ascii_word_probes");
+                            rep.eval(fnv64(format!("aw|{}|{}|{:?}|{}", pat, a, api, flags.to_string()).as_bytes()), true);
+                            if got != want {
+                                rep.violation(violation("C10", &format!("{:?} entry point: {} disagrees with the word characters for {:?}", api, pat, s), J::obj().set("construct", pat).set("flags", flags.to_string()).set("haystack", s.as_str()).set("api", format!("{:?}", api)).set("check", "c10"), format!("matched = {}", got), format!("matched = {}", want)));
+                            }
+                        }
+                    }
+                }
+            }
+        }
+    }
     if rep.samples.len() < rep.max_samples {
         rep.sample(J::obj().set("construct", "literal").set("example", "/\\u212A/iu over the non-trivial haystack must match exactly {K, k, U+212A}"));
         rep.sample(J::obj().set("construct", "block_class").set("example", "/[\\u0100-\\u01FF]/i over all 1,112,064 scalar values"));
